@@ -8,9 +8,9 @@ open Py Xs.Bind Xs.Bind.F1 Xs.Bind.FN
 
 /-! ### the document tree of a value -/
 
-def itemTreeNN (M : NsMap) (rec : Bool → QN → Val → Tree) (var : XmlVar) (y : Val) : Tree :=
+def itemTreeNN (M : NsMap) (rec : XmlVar → Val → Tree) (var : XmlVar) (y : Val) : Tree :=
   match y with
-  | .obj .. => rec var.nillable var.qname y
+  | .obj .. => rec var y
   | y => primItemTree M var y
 
 /-- the pairs `next_value` yields -/
@@ -20,7 +20,7 @@ def valsN (m : XmlMeta) (fields : List (Str × Val)) : List (XmlVar × Val) :=
   | .error _ => []
 
 /-- the child trees of an object, in document order -/
-def kidsN (M : NsMap) (rec : Bool → QN → Val → Tree) (m : XmlMeta) (fields : List (Str × Val)) :
+def kidsN (M : NsMap) (rec : XmlVar → Val → Tree) (m : XmlMeta) (fields : List (Str × Val)) :
     List Tree :=
   (valsN m fields).flatMap fun c => chunkTrees M (itemTreeNN M rec c.1) c.1 c.2
 
@@ -29,41 +29,72 @@ def textTextN : Val → Option Str
   | .list ys => optText (joinTok ys)
   | _ => none
 
-def treeNN (Γ : Ctx) (cfg : SerCfg) (M : NsMap) : Nat → Option Str → Bool → QN → Val → Tree
-  | n + 1, pns, nl, q, .obj c fields =>
+/-- the `xsi:type` the serializer writes for item `y` of `var`: the qualified name of the class of
+`y` unless that is the declared class of the var -/
+def xtOf (Γ : Ctx) (pns : Option Str) (var : XmlVar) : Val → Option QN
+  | .obj cls _ => if var.clazz = some cls then none else (metaOf Γ cls pns).bind (·.targetQName)
+  | _ => none
+
+/-- declared attributes, map entries and `xsi:type` of an element -/
+def attrPairsT (cfg : SerCfg) (M : NsMap) (vars : List XmlVar) (fields : List (Str × Val))
+    (xt : Option QN) : List (QN × Str) :=
+  attrPairsN cfg vars fields ++ typeAttr M xt
+
+def attrEvsT (cfg : SerCfg) (vars : List XmlVar) (fields : List (Str × Val)) (xt : Option QN) : List Ev :=
+  attrEvsN cfg vars fields ++ typeEvs xt
+
+def treeNN (Γ : Ctx) (cfg : SerCfg) (M : NsMap) : Nat → Option Str → Bool → Option QN → QN → Val → Tree
+  | n + 1, pns, nl, xt, q, .obj c fields =>
     match metaOf Γ c pns with
     | none => emptyTree M q
     | some m =>
       match m.text with
       | some tv =>
-        .node q (if textHasData (look fields tv.name) then attrPairsN cfg m.attributeVars fields
-                 else attrPairsN cfg m.attributeVars fields ++ nilAttr (nl || m.nillable)) M
+        .node q (if textHasData (look fields tv.name) then attrPairsT cfg M m.attributeVars fields xt
+                 else attrPairsT cfg M m.attributeVars fields xt ++ nilAttr (nl || m.nillable)) M
           (textTextN (look fields tv.name)) [] none
       | none =>
         .node q
-          (if (kidsN M (treeNN Γ cfg M n (targetUri m.qname)) m fields).isEmpty
-           then attrPairsN cfg m.attributeVars fields ++ nilAttr (nl || m.nillable)
-           else attrPairsN cfg m.attributeVars fields) M none
-          (kidsN M (treeNN Γ cfg M n (targetUri m.qname)) m fields) none
-  | _, _, _, q, _ => emptyTree M q
+          (if (kidsN M (fun var y => treeNN Γ cfg M n (targetUri m.qname) var.nillable
+                (xtOf Γ (targetUri m.qname) var y) var.qname y) m fields).isEmpty
+           then attrPairsT cfg M m.attributeVars fields xt ++ nilAttr (nl || m.nillable)
+           else attrPairsT cfg M m.attributeVars fields xt) M none
+          (kidsN M (fun var y => treeNN Γ cfg M n (targetUri m.qname) var.nillable
+            (xtOf Γ (targetUri m.qname) var y) var.qname y) m fields) none
+  | _, _, _, _, q, _ => emptyTree M q
+
+/-- the tree of an item of `var` that is an object -/
+def itemRec (Γ : Ctx) (cfg : SerCfg) (M : NsMap) (n : Nat) (pns : Option Str) (var : XmlVar) (y : Val) : Tree :=
+  treeNN Γ cfg M n pns var.nillable (xtOf Γ pns var y) var.qname y
+
+/-- the prefix map serves every `xsi:type` written in `evs` -/
+def TypesGood (e : BEnv) (M : NsMap) (evs : List Ev) : Prop :=
+  ∀ t, Ev.attr xsiType (.prim (.qname t)) ∈ evs → typeNameOK e t = true →
+    xsiTypeOf e [(xsiType, qnameText M t)] M = .ok (some t)
+
+theorem TypesGood.mono {e : BEnv} {M : NsMap} {evs evs' : List Ev} (h : TypesGood e M evs)
+    (hsub : ∀ ev ∈ evs', ev ∈ evs) : TypesGood e M evs' :=
+  fun t ht hok => h t (hsub _ ht) hok
 
 /-- the statement proved by induction on `n` (cf. `MainStmt`): `nl` says that the element is
 written for a nillable var -/
-def MainStmtN (e : BEnv) (Γ : Ctx) (cfg : SerCfg) (pcfg : ParserConfig) (M : NsMap) (n : Nat) : Prop :=
+def MainStmtN (ft : Feat) (e : BEnv) (Γ : Ctx) (cfg : SerCfg) (pcfg : ParserConfig) (M : NsMap) (n : Nat) : Prop :=
   ∀ (v : Val) (c : ClassId) (pnsG pnsP : Option Str) (oq : Option QN) (q : QN) (fuel : Nat)
-    (mg mp : XmlMeta) (nl : Bool),
+    (mg mp : XmlMeta) (nl : Bool) (xt : Option QN),
     metaOf Γ c pnsG = some mg → metaOf Γ c pnsP = some mp → dropQ mg = dropQ mp →
-    resolveQ oq mg = q → nsAgree Γ mp q = true → valObjN e Γ n pnsP c nl v = true →
+    resolveQ oq mg = q → nsAgreeN ft Γ mp q = true → valObjN ft.inherit e Γ n pnsP c nl xt v = true →
     4 * v.size ≤ fuel →
     ∃ evs a text kids,
-      genObj e Γ cfg fuel v pnsG oq nl none = .ok evs ∧
-      treeNN Γ cfg M n pnsP nl q v = .node q a M text kids none ∧
-      SubW M (isDatatype Γ) evs (treeSax (treeNN Γ cfg M n pnsP nl q v)) ∧
-      plain M (treeNN Γ cfg M n pnsP nl q v) = true ∧
-      (∀ kv ∈ a, kv.1 ≠ xsiType) ∧
+      genObj e Γ cfg fuel v pnsG oq nl xt = .ok evs ∧
+      treeNN Γ cfg M n pnsP nl xt q v = .node q a M text kids none ∧
+      SubW M (isDatatype Γ) evs (treeSax (treeNN Γ cfg M n pnsP nl xt q v)) ∧
+      plain M (treeNN Γ cfg M n pnsP nl xt q v) = true ∧
       (xsiNilOf a = none ∨ (xsiNilOf a = some true ∧ (nl || mp.nillable) = true)) ∧
-      parseNode e Γ pcfg (.element mp a M false none (xsiNilOf a)) (treeNN Γ cfg M n pnsP nl q v) =
-        .ok ⟨[(some q, v)], 0⟩
+      -- the parser side needs the prefix of the `xsi:type` values
+      (TypesGood e M evs →
+        xsiTypeOf e a M = .ok xt ∧
+        ∀ xtN, parseNode e Γ pcfg (.element mp a M false xtN (xsiNilOf a)) (treeNN Γ cfg M n pnsP nl xt q v) =
+          .ok ⟨[(some q, v)], 0⟩)
 
 /-! ### `parseNode` on an element node, from its parts -/
 
@@ -77,8 +108,8 @@ theorem parseNode_element_N (e : BEnv) (Γ : Ctx) (pcfg : ParserConfig) (m : Xml
     (hE : ∀ en ∈ entries, ElemFactsN m en.1) (hWs : WsOK stF.wrappers entries)
     (hA : bindAttrs e pcfg m a M = .ok (PA, 0))
     (hT : bindText e pcfg m (xsiNilOf a) M (bindEntries PA entries) text = .ok (bt, PT, 0))
-    (hF : classFactory Γ m.clazz PT = .ok v) :
-    parseNode e Γ pcfg (.element m a M false none (xsiNilOf a)) (.node q a M text kids none) =
+    (hF : classFactory Γ m.clazz PT = .ok v) (xtN : Option QN) :
+    parseNode e Γ pcfg (.element m a M false xtN (xsiNilOf a)) (.node q a M text kids none) =
       .ok ⟨[(some q, v)], 0⟩ := by
   rw [parseNode]
   have hcond : (!decide (xsiNilOf a = some true) || m.nillable) = true := by
@@ -96,7 +127,7 @@ theorem parseNode_element_N (e : BEnv) (Γ : Ctx) (pcfg : ParserConfig) (m : Xml
 /-! ### one element var: everything the induction step needs -/
 
 structure VarBundle (e : BEnv) (Γ : Ctx) (cfg : SerCfg) (pcfg : ParserConfig) (M : NsMap)
-    (m : XmlMeta) (ci : ClassInfo) (ns : Option Str) (rec : Bool → QN → Val → Tree) (f : Nat)
+    (m : XmlMeta) (ci : ClassInfo) (ns : Option Str) (rec : XmlVar → Val → Tree) (f : Nat)
     (var : XmlVar) (x : Val) : Prop where
   shape : Shape var x
   items : ∀ y ∈ itemsN var x, ∀ fI, (fI = f + 1 ∨ (fI = f ∧ x.isArray = true)) →
@@ -109,13 +140,13 @@ structure VarBundle (e : BEnv) (Γ : Ctx) (cfg : SerCfg) (pcfg : ParserConfig) (
       ((x = .none ∧ fdNone ci var.name = true) ∨ (x = .list [] ∧ var.default = .listFactory) ∨
         (var.init = false ∧ ∃ p, x = .prim p ∧ var.default = .val p)))
 
-theorem itemTreeNN_prim (M : NsMap) (rec : Bool → QN → Val → Tree) (var : XmlVar) {y : Val}
+theorem itemTreeNN_prim (M : NsMap) (rec : XmlVar → Val → Tree) (var : XmlVar) {y : Val}
     (h : ∀ c fs, y ≠ .obj c fs) : itemTreeNN M rec var y = primItemTree M var y := by
   cases y <;> first | rfl | exact absurd rfl (h _ _)
 
 /-- a primitive-like item: all three sides -/
 theorem primItem_all (e : BEnv) (Γ : Ctx) (cfg : SerCfg) (pcfg : ParserConfig) (M : NsMap)
-    (ns : Option Str) (rec : Bool → QN → Val → Tree) {m : XmlMeta} {var : XmlVar}
+    (ns : Option Str) (rec : XmlVar → Val → Tree) {m : XmlMeta} {var : XmlVar}
     (hf : ElemFactsN m var) (hw : m.wildcards = []) (hcl : var.clazz = none) {t : PT}
     (hty : var.types = [.prim t]) {y : Val} (hy : PrimItem e var t y)
     (h1 : y = .none → var.default = .none ∨ (var.default = .listFactory ∧ var.tokens = false))
@@ -165,15 +196,15 @@ theorem Toks.notArray {e : BEnv} {t : PT} {ys : List Val} (h : Toks e t ys) :
 
 /-- an element var of primitive type -/
 theorem prim_bundle (e : BEnv) (Γ : Ctx) (cfg : SerCfg) (pcfg : ParserConfig) (M : NsMap)
-    (ns : Option Str) (rec : Bool → QN → Val → Tree) {m : XmlMeta} {ci : ClassInfo} {var : XmlVar}
+    (ns : Option Str) (rec : XmlVar → Val → Tree) {m : XmlMeta} {ci : ClassInfo} {var : XmlVar}
     (hf : ElemFactsN m var) (hw : m.wildcards = []) {t : PT} (hcl : var.clazz = none)
     (hp : primTypeOf var = some t) (hty : var.types = [.prim t])
     (hd : if var.tokens || var.listElement then
             var.default = .listFactory ∧ ¬ (var.tokens = true ∧ var.listElement = true ∧ var.nillable = true)
           else scalarDefault var.default t = true ∧ (var.nillable = true → var.default = .none))
     (hinit : var.init = true ∨ fixedOK var = true)
-    {x : Val} (rc : ClassId → Bool → Val → Bool)
-    (hx : FN.elemValOK e Γ m ci var rc x = true) (f : Nat) (hfuel : 2 ≤ f) :
+    {x : Val} {inh : Bool} (rc : ClassId → Bool → Option QN → Val → Bool)
+    (hx : FN.elemValOK inh e Γ m ci var rc x = true) (f : Nat) (hfuel : 2 ≤ f) :
     VarBundle e Γ cfg pcfg M m ci ns rec f var x := by
   unfold FN.elemValOK at hx
   rw [Bool.and_eq_true] at hx
@@ -354,6 +385,21 @@ theorem prim_bundle (e : BEnv) (Γ : Ctx) (cfg : SerCfg) (pcfg : ParserConfig) (
 
 theorem xsiNilOf_nilAttr : xsiNilOf (nilAttr true) = some true := by decide
 
+theorem buildNode_clsX (e : BEnv) (Γ : Ctx) {m : XmlMeta} {var : XmlVar} (hf : ElemFactsN m var)
+    {c : ClassId} (hcl : var.clazz = some c) {ms : XmlMeta} (a : List (QN × Str)) (M : NsMap)
+    (xt : Option QN) (hfetch : Γ.fetch c (targetUri m.qname) xt = .ok ms)
+    (hsub : xt.isSome = true → Γ.isSubclass ms.clazz c = true)
+    (h1 : xsiTypeOf e a M = .ok xt)
+    (h2 : xsiNilOf a = none ∨ (xsiNilOf a = some true ∧ (var.nillable || ms.nillable) = true)) :
+    buildNode e Γ m var.qname var a M = .ok (some (.element ms a M false xt (xsiNilOf a))) := by
+  rcases h2 with h2 | ⟨h2, hn⟩
+  · simp [buildNode, hf.union, h1, h2, hcl, buildElementNode,
+      XmlMeta.namespace, hfetch, bind, Except.bind, pure, Except.pure]
+    exact hsub
+  · simp [buildNode, hf.union, h1, h2, hcl, buildElementNode,
+      XmlMeta.namespace, hfetch, hn, bind, Except.bind, pure, Except.pure]
+    exact hsub
+
 theorem buildNode_clsN (e : BEnv) (Γ : Ctx) {m : XmlMeta} {var : XmlVar} (hf : ElemFactsN m var)
     {c : ClassId} (hcl : var.clazz = some c) {m' : XmlMeta}
     (hm' : metaOf Γ c (targetUri m.qname) = some m') (a : List (QN × Str)) (M : NsMap)
@@ -363,15 +409,11 @@ theorem buildNode_clsN (e : BEnv) (Γ : Ctx) {m : XmlMeta} {var : XmlVar} (hf : 
   have hfetch : Γ.fetch c (targetUri m.qname) none = .ok m' := by
     simp only [metaOf] at hm'
     simp [Ctx.fetch, hm']
-  rcases h2 with h2 | ⟨h2, hn⟩
-  · simp [buildNode, hf.union, xsiTypeOf_none e a M h1, h2, hcl, buildElementNode,
-      XmlMeta.namespace, hfetch, bind, Except.bind, pure, Except.pure]
-  · simp [buildNode, hf.union, xsiTypeOf_none e a M h1, h2, hcl, buildElementNode,
-      XmlMeta.namespace, hfetch, hn, bind, Except.bind, pure, Except.pure]
+  exact buildNode_clsX e Γ hf hcl a M none hfetch (fun h => by cases h) (xsiTypeOf_none e a M h1) h2
 
 /-- `None` under a nillable var whose class is not nillable -/
 theorem nilItem_cls (e : BEnv) (Γ : Ctx) (cfg : SerCfg) (pcfg : ParserConfig) (M : NsMap)
-    (ns : Option Str) (rec : Bool → QN → Val → Tree) {m : XmlMeta} {var : XmlVar}
+    (ns : Option Str) (rec : XmlVar → Val → Tree) {m : XmlMeta} {var : XmlVar}
     (hf : ElemFactsN m var) {c : ClassId} (hcl : var.clazz = some c) (htk : var.tokens = false)
     {m' : XmlMeta} (hm' : metaOf Γ c (targetUri m.qname) = some m') (hn : var.nillable = true)
     (hmn : m'.nillable = false) (f : Nat) (hfuel : 2 ≤ f) :
@@ -393,78 +435,191 @@ theorem nilItem_cls (e : BEnv) (Γ : Ctx) (cfg : SerCfg) (pcfg : ParserConfig) (
     rw [parseNode]
     simp [xsiNilOf_nilAttr, parseKids, hmn, normalizeContent, bind, Except.bind, pure, Except.pure]
 
+theorem typeNameOK_ne_nil {e : BEnv} {t : QN} (h : typeNameOK e t = true) : t ≠ [] := by
+  intro ht
+  subst ht
+  simp [typeNameOK, localName, splitQName] at h
 
-/-- a model-typed item, from the induction hypothesis -/
-theorem objItem_N (e : BEnv) (Γ : Ctx) (cfg : SerCfg) (pcfg : ParserConfig) (M : NsMap) (n : Nat)
-    (IH : MainStmtN e Γ cfg pcfg M n) {m : XmlMeta} {var : XmlVar} (hf : ElemFactsN m var)
-    {c : ClassId} {m' : XmlMeta} (hcl : var.clazz = some c) (htk : var.tokens = false)
+/-- a model-typed item (an instance of the declared class or of a proper subclass), from the
+induction hypothesis -/
+theorem objItem_N (ft : Feat) (e : BEnv) (Γ : Ctx) (cfg : SerCfg) (pcfg : ParserConfig) (M : NsMap) (n : Nat)
+    (hΓ : ctxOK ft Γ = true)
+    (IH : MainStmtN ft e Γ cfg pcfg M n) {m : XmlMeta} {var : XmlVar} (hf : ElemFactsN m var)
+    {c : ClassId} (hcl : var.clazz = some c) (htk : var.tokens = false)
     (hty : var.types = [.cls c])
-    (hm' : metaOf Γ c (targetUri m.qname) = some m') (hns' : nsAgree Γ m' var.qname = true)
-    (q : QN) (hnsq : nsAgree Γ m q = true) (hmem : var ∈ m.elementVars)
-    (y : Val) (hy : valObjN e Γ n (targetUri m.qname) c var.nillable y = true) (f : Nat)
-    (hfuel : 4 * y.size + 3 ≤ f) :
+    (hns' : ∀ k ∈ classesFor ft Γ c, ∀ mk, metaOf Γ k (targetUri m.qname) = some mk →
+      nsAgreeN ft Γ mk var.qname = true)
+    (q : QN) (hnsq : nsAgreeN ft Γ m q = true) (hmem : var ∈ m.elementVars)
+    (y : Val)
+    (hy : objOK ft.inherit Γ (targetUri m.qname) var c (valObjN ft.inherit e Γ n (targetUri m.qname)) y = true)
+    (f : Nat) (hfuel : 4 * y.size + 3 ≤ f) :
     (∃ evs, itemGen e Γ cfg var (targetUri q) f y = .ok evs ∧
       SubW M (isDatatype Γ) evs
-        (treeSax (itemTreeNN M (treeNN Γ cfg M n (targetUri m.qname)) var y))) ∧
-    plain M (itemTreeNN M (treeNN Γ cfg M n (targetUri m.qname)) var y) = true ∧
-    ItemP e Γ pcfg M m var y (itemTreeNN M (treeNN Γ cfg M n (targetUri m.qname)) var y) := by
+        (treeSax (itemTreeNN M (itemRec Γ cfg M n (targetUri m.qname)) var y)) ∧
+      (TypesGood e M evs →
+        ItemP e Γ pcfg M m var y (itemTreeNN M (itemRec Γ cfg M n (targetUri m.qname)) var y))) ∧
+    plain M (itemTreeNN M (itemRec Γ cfg M n (targetUri m.qname)) var y) = true := by
   obtain ⟨f', rfl⟩ : ∃ f', f = f' + 3 := ⟨f - 3, by omega⟩
-  have hagree := nsAgree_var hnsq hmem hcl
-  rw [hm'] at hagree
-  obtain ⟨mg', hmg', hdq⟩ : ∃ mg', metaOf Γ c (targetUri q) = some mg' ∧ dropQ mg' = dropQ m' := by
-    cases hx : metaOf Γ c (targetUri q) with
-    | none => simp [hx] at hagree
-    | some mg' => exact ⟨mg', rfl, by simpa [hx] using hagree⟩
-  have hq : resolveQ (some var.qname) mg' = var.qname := by
-    have : var.qname.isEmpty = false := by
-      cases hvq : var.qname with
-      | nil => exact absurd hvq hf.qne
-      | cons _ _ => rfl
-    simp [resolveQ, this]
-  obtain ⟨evs, a, text, kids, hgen, htree, hsub, hplain, hxt, hxn, hparse⟩ :=
-    IH y c (targetUri q) (targetUri m.qname) (some var.qname) var.qname f' mg' m' var.nillable hmg' hm'
-      hdq hq hns' hy (by omega)
-  have hobj : ∃ fs, y = .obj c fs := by
-    cases n with
-    | zero => simp [FN.valObjN] at hy
-    | succ k =>
-      cases y <;> simp [FN.valObjN] at hy
-      rename_i cls fs
-      exact ⟨fs, by rw [hy.1]⟩
-  obtain ⟨fs, rfl⟩ := hobj
-  have hit : itemTreeNN M (treeNN Γ cfg M n (targetUri m.qname)) var (.obj c fs) =
-      treeNN Γ cfg M n (targetUri m.qname) var.nillable var.qname (.obj c fs) := rfl
-  rw [hit]
-  refine ⟨⟨evs, ?_, hsub⟩, hplain, ?_⟩
-  · simp only [itemGen, htk, Bool.false_eq_true, if_false]
-    rw [genValue_objN e Γ cfg hf htk c fs (targetUri q) hty f']; exact hgen
-  · exact ⟨a, text, kids, _, htree, buildNode_clsN e Γ hf hcl hm' a M hxt hxn, hparse⟩
+  have hqne : var.qname.isEmpty = false := by
+    cases hvq : var.qname with
+    | nil => exact absurd hvq hf.qne
+    | cons _ _ => rfl
+  cases y with
+  | obj cls fs =>
+    have hit : itemTreeNN M (itemRec Γ cfg M n (targetUri m.qname)) var (.obj cls fs) =
+        treeNN Γ cfg M n (targetUri m.qname) var.nillable (xtOf Γ (targetUri m.qname) var (.obj cls fs))
+          var.qname (.obj cls fs) := rfl
+    rw [hit]
+    simp only [objOK] at hy
+    by_cases hcc : cls = c
+    · -- an instance of the declared class: no `xsi:type`
+      subst hcc
+      simp only [if_true] at hy
+      have hxt0 : xtOf Γ (targetUri m.qname) var (.obj cls fs) = none := by simp [xtOf, hcl]
+      rw [hxt0]
+      obtain ⟨m', hm'⟩ : ∃ m', metaOf Γ cls (targetUri m.qname) = some m' := by
+        cases n with
+        | zero => simp [FN.valObjN] at hy
+        | succ k =>
+          cases hmo : metaOf Γ cls (targetUri m.qname) with
+          | some m' => exact ⟨m', rfl⟩
+          | none =>
+            exfalso
+            simp only [metaOf, Option.bind_eq_none_iff] at hmo
+            simp only [FN.valObjN] at hy
+            cases hfd : Γ.find cls with
+            | none => simp [hfd] at hy
+            | some ci => simp [hfd, hmo ci hfd] at hy
+      have hagree := nsAgreeN_var hnsq hmem hcl (mem_classesFor_self ft Γ cls)
+      rw [hm'] at hagree
+      obtain ⟨mg', hmg', hdq⟩ : ∃ mg', metaOf Γ cls (targetUri q) = some mg' ∧ dropQ mg' = dropQ m' := by
+        cases hx : metaOf Γ cls (targetUri q) with
+        | none => simp [hx] at hagree
+        | some mg' => exact ⟨mg', rfl, by simpa [hx] using hagree⟩
+      have hq : resolveQ (some var.qname) mg' = var.qname := by simp [resolveQ, hqne]
+      obtain ⟨evs, a, text, kids, hgen, htree, hsub, hplain, hxn, hP⟩ :=
+        IH _ cls (targetUri q) (targetUri m.qname) (some var.qname) var.qname f' mg' m' var.nillable none
+          hmg' hm' hdq hq (hns' cls (mem_classesFor_self ft Γ cls) m' hm') hy (by omega)
+      refine ⟨⟨evs, ?_, hsub, fun hgood => ?_⟩, hplain⟩
+      · simp only [itemGen, htk, Bool.false_eq_true, if_false]
+        rw [genValue_objN e Γ cfg hf htk cls fs (targetUri q) hty f']; exact hgen
+      · obtain ⟨hxt, hparse⟩ := hP hgood
+        have hfetch : Γ.fetch cls (targetUri m.qname) none = .ok m' := by
+          simp only [metaOf] at hm'
+          simp [Ctx.fetch, hm']
+        exact ⟨a, text, kids, _, htree,
+          buildNode_clsX e Γ hf hcl a M none hfetch (fun h => by cases h) hxt hxn, hparse none⟩
+    · -- an instance of a proper subclass, identified by `xsi:type`
+      simp only [hcc, if_false, Bool.and_eq_true] at hy
+      obtain ⟨⟨hinh, hsubc⟩, hy⟩ := hy
+      cases hms : metaOf Γ cls (targetUri m.qname) with
+      | none => simp [hms] at hy
+      | some ms =>
+        simp only [hms] at hy
+        cases htq : ms.targetQName with
+        | none => simp [htq] at hy
+        | some t =>
+          simp only [htq, Bool.and_eq_true, decide_eq_true_eq] at hy
+          obtain ⟨⟨htne, hfe⟩, hyrec⟩ := hy
+          have hfetch : Γ.fetch c (targetUri m.qname) (some t) = .ok ms := by
+            cases hfx : Γ.fetch c (targetUri m.qname) (some t) with
+            | error err => simp [hfx] at hfe
+            | ok m2 =>
+              simp only [hfx, decide_eq_true_eq] at hfe
+              rw [hfe]
+          obtain ⟨ci, hfind, hmf⟩ : ∃ ci, Γ.find cls = some ci ∧ ci.metaFor (targetUri m.qname) = some ms := by
+            simpa [metaOf, Option.bind_eq_some_iff] using hms
+          have hk : cls ∈ classesFor ft Γ c := mem_classesFor_sub hinh hfind hsubc
+          have hmsclazz : ms.clazz = cls := by
+            rw [(ctx_metaFactsN hΓ hfind hmf).1.clazz]; exact find_id hfind
+          have hxt1 : xtOf Γ (targetUri m.qname) var (.obj cls fs) = some t := by
+            have : ¬ (some c = some cls) := fun h => hcc (by cases h; rfl)
+            simp [xtOf, hcl, this, hms, htq]
+          rw [hxt1]
+          have hagree := nsAgreeN_var hnsq hmem hcl hk
+          rw [hms] at hagree
+          obtain ⟨mg', hmg', hdq⟩ : ∃ mg', metaOf Γ cls (targetUri q) = some mg' ∧ dropQ mg' = dropQ ms := by
+            cases hx : metaOf Γ cls (targetUri q) with
+            | none => simp [hx] at hagree
+            | some mg' => exact ⟨mg', rfl, by simpa [hx] using hagree⟩
+          have htq' : mg'.targetQName = some t := by
+            have := congrArg XmlMeta.targetQName hdq
+            simpa [dropQ, htq] using this
+          have hq : resolveQ (some var.qname) mg' = var.qname := by simp [resolveQ, hqne]
+          obtain ⟨evs, a, text, kids, hgen, htree, hsub, hplain, hxn, hP⟩ :=
+            IH _ cls (targetUri q) (targetUri m.qname) (some var.qname) var.qname f' mg' ms var.nillable
+              (some t) hmg' hms hdq hq (hns' cls hk ms hms) hyrec (by omega)
+          refine ⟨⟨evs, ?_, hsub, fun hgood => ?_⟩, hplain⟩
+          · simp only [itemGen, htk, Bool.false_eq_true, if_false]
+            have hfg : Γ.fetch cls (targetUri q) none = .ok mg' := by
+              simp only [metaOf] at hmg'
+              simp [Ctx.fetch, hmg']
+            have hder : Γ.isDerived cls c = true := by simp [Ctx.isDerived, hsubc]
+            rw [genValue_objD e Γ cfg hf htk fs (targetUri q) hty hcl hcc hder hfg f']
+            have hreal : realXsiType var.qname mg'.targetQName = some t := by
+              have : ¬ (t = var.qname) := htne
+              simp [realXsiType, htq', this]
+            rw [hreal]; exact hgen
+          · obtain ⟨hxt, hparse⟩ := hP hgood
+            exact ⟨a, text, kids, _, htree,
+              buildNode_clsX e Γ hf hcl a M (some t) hfetch (fun _ => by rw [hmsclazz]; exact hsubc)
+                hxt hxn, hparse (some t)⟩
+  | _ => simp [objOK] at hy
 
-theorem clsItemOK_cases {var : XmlVar} {b : Bool} {rc : Bool → Val → Bool} {y : Val}
+theorem clsItemOK_cases {var : XmlVar} {b : Bool} {rc : Val → Bool} {y : Val}
     (h : clsItemOK var b rc y = true) :
-    (y = .none ∧ var.nillable = true ∧ b = false) ∨ (y ≠ .none ∧ rc var.nillable y = true) := by
+    (y = .none ∧ var.nillable = true ∧ b = false) ∨ (y ≠ .none ∧ rc y = true) := by
   cases y <;> simp [clsItemOK] at h <;> first | exact Or.inl ⟨rfl, h.1, h.2⟩ | exact Or.inr ⟨by simp, h⟩
 
+theorem objOK_notArray {inh : Bool} {Γ : Ctx} {pns : Option Str} {var : XmlVar} {c : ClassId}
+    {rc : ClassId → Bool → Option QN → Val → Bool} {y : Val} (h : objOK inh Γ pns var c rc y = true) :
+    y.isArray = false := by
+  cases y <;> simp [objOK] at h <;> rfl
+
+/-- `VarBundle` with the parser side under the hypothesis on the prefix map -/
+structure VarBundleG (e : BEnv) (Γ : Ctx) (cfg : SerCfg) (pcfg : ParserConfig) (M : NsMap)
+    (m : XmlMeta) (ci : ClassInfo) (ns : Option Str) (rec : XmlVar → Val → Tree) (f : Nat)
+    (var : XmlVar) (x : Val) : Prop where
+  shape : Shape var x
+  items : ∀ y ∈ itemsN var x, ∀ fI, (fI = f + 1 ∨ (fI = f ∧ x.isArray = true)) →
+    (∃ evs, itemGen e Γ cfg var ns fI y = .ok evs ∧
+      SubW M (isDatatype Γ) evs (treeSax (itemTreeNN M rec var y)) ∧
+      (TypesGood e M evs → ItemP e Γ pcfg M m var y (itemTreeNN M rec var y))) ∧
+    plain M (itemTreeNN M rec var y) = true
+  short : var.listElement = false → (itemsN var x).length ≤ 1
+  param : finalParam var (itemsN var x) = some x ∨
+    (finalParam var (itemsN var x) = none ∧
+      ((x = .none ∧ fdNone ci var.name = true) ∨ (x = .list [] ∧ var.default = .listFactory) ∨
+        (var.init = false ∧ ∃ p, x = .prim p ∧ var.default = .val p)))
+
+theorem VarBundle.toG {e : BEnv} {Γ : Ctx} {cfg : SerCfg} {pcfg : ParserConfig} {M : NsMap}
+    {m : XmlMeta} {ci : ClassInfo} {ns : Option Str} {rec : XmlVar → Val → Tree} {f : Nat}
+    {var : XmlVar} {x : Val} (h : VarBundle e Γ cfg pcfg M m ci ns rec f var x) :
+    VarBundleG e Γ cfg pcfg M m ci ns rec f var x :=
+  ⟨h.shape, fun y hy fI hF => by
+    obtain ⟨⟨evs, hg, hs⟩, hp, hi⟩ := h.items y hy fI hF
+    exact ⟨⟨evs, hg, hs, fun _ => hi⟩, hp⟩, h.short, h.param⟩
+
 /-- an element var of model type -/
-theorem cls_bundle (e : BEnv) (Γ : Ctx) (cfg : SerCfg) (pcfg : ParserConfig) (M : NsMap) (n : Nat)
-    (IH : MainStmtN e Γ cfg pcfg M n) {m : XmlMeta} {ci : ClassInfo} {var : XmlVar}
+theorem cls_bundle (ft : Feat) (e : BEnv) (Γ : Ctx) (cfg : SerCfg) (pcfg : ParserConfig) (M : NsMap) (n : Nat)
+    (hΓ : ctxOK ft Γ = true)
+    (IH : MainStmtN ft e Γ cfg pcfg M n) {m : XmlMeta} {ci : ClassInfo} {var : XmlVar}
     (hf : ElemFactsN m var) {c : ClassId} {m' : XmlMeta} (hcl : var.clazz = some c)
     (htk : var.tokens = false) (hty : var.types = [.cls c])
     (hd : if var.listElement then var.default = .listFactory else var.default = .none)
-    (hm' : metaOf Γ c (targetUri m.qname) = some m') (hns' : nsAgree Γ m' var.qname = true)
-    (q : QN) (hnsq : nsAgree Γ m q = true) (hmem : var ∈ m.elementVars) (hi : var.init = true) {x : Val}
-    (hx : FN.elemValOK e Γ m ci var (valObjN e Γ n (targetUri m.qname)) x = true) (f : Nat)
-    (hfuel : 4 * x.size + 2 ≤ f) :
-    VarBundle e Γ cfg pcfg M m ci (targetUri q) (treeNN Γ cfg M n (targetUri m.qname)) f var x := by
+    (hm' : metaOf Γ c (targetUri m.qname) = some m')
+    (hns' : ∀ k ∈ classesFor ft Γ c, ∀ mk, metaOf Γ k (targetUri m.qname) = some mk →
+      nsAgreeN ft Γ mk var.qname = true)
+    (q : QN) (hnsq : nsAgreeN ft Γ m q = true) (hmem : var ∈ m.elementVars) (hi : var.init = true) {x : Val}
+    (hx : FN.elemValOK ft.inherit e Γ m ci var (valObjN ft.inherit e Γ n (targetUri m.qname)) x = true)
+    (f : Nat) (hfuel : 4 * x.size + 2 ≤ f) :
+    VarBundleG e Γ cfg pcfg M m ci (targetUri q) (itemRec Γ cfg M n (targetUri m.qname)) f var x := by
   unfold FN.elemValOK at hx
   rw [Bool.and_eq_true] at hx
   replace hx := hx.2
   simp only [hcl, hm'] at hx
-  have hobjOf : ∀ y, valObjN e Γ n (targetUri m.qname) c var.nillable y = true → y.isArray = false := by
-    intro y hy
-    cases n with
-    | zero => simp [FN.valObjN] at hy
-    | succ k => cases y <;> simp [FN.valObjN] at hy <;> rfl
+  have hnil := fun fI hfI => nilItem_cls e Γ cfg pcfg M (targetUri q) (itemRec Γ cfg M n (targetUri m.qname))
+    hf hcl htk hm' (f := fI) (hfuel := hfI)
   by_cases hl : var.listElement = true
   · simp only [hl, if_true] at hx hd
     cases x <;> simp at hx
@@ -475,15 +630,16 @@ theorem cls_bundle (e : BEnv) (Γ : Ctx) (cfg : SerCfg) (pcfg : ParserConfig) (M
     · intro y hy
       rcases hcases y hy with ⟨rfl, _⟩ | ⟨_, h⟩
       · rfl
-      · exact hobjOf y h
+      · exact objOK_notArray h
     · rw [hitems]
       intro y hy fI hF
       have hsz := size_le_sizeList hy
       simp only [Val.size] at hfuel
       have hfI : 4 * y.size + 3 ≤ fI := by rcases hF with h | h <;> omega
       rcases hcases y hy with ⟨rfl, hn, hmn⟩ | ⟨_, h⟩
-      · exact nilItem_cls e Γ cfg pcfg M _ _ hf hcl htk hm' hn hmn fI (by omega)
-      · exact objItem_N e Γ cfg pcfg M n IH hf hcl htk hty hm' hns' q hnsq hmem y h fI hfI
+      · obtain ⟨⟨evs, hg, hs⟩, hp, hI⟩ := hnil fI (by omega) hn hmn
+        exact ⟨⟨evs, hg, hs, fun _ => hI⟩, hp⟩
+      · exact objItem_N ft e Γ cfg pcfg M n hΓ IH hf hcl htk hty hns' q hnsq hmem y h fI hfI
     · rw [hitems]
       cases xs with
       | nil => exact Or.inr ⟨by simp [finalParam, hl, hi], Or.inr (Or.inl ⟨rfl, hd⟩)⟩
@@ -501,8 +657,8 @@ theorem cls_bundle (e : BEnv) (Γ : Ctx) (cfg : SerCfg) (pcfg : ParserConfig) (M
         intro y hy fI hF
         simp only [List.mem_singleton] at hy
         subst hy
-        exact nilItem_cls e Γ cfg pcfg M _ _ hf hcl htk hm' hn hmn fI
-          (by rcases hF with h | h <;> omega)
+        obtain ⟨⟨evs, hg, hs⟩, hp, hI⟩ := hnil fI (by rcases hF with h | h <;> omega) hn hmn
+        exact ⟨⟨evs, hg, hs, fun _ => hI⟩, hp⟩
       · have hitems : itemsN var .none = [] := by simp [itemsN, hn]
         exact ⟨Shape.none htk hl', by simp [hitems], fun _ => by simp [hitems],
           Or.inr ⟨by simp [hitems, finalParam, hl', hi], Or.inl ⟨rfl, hfd⟩⟩⟩
@@ -514,7 +670,7 @@ theorem cls_bundle (e : BEnv) (Γ : Ctx) (cfg : SerCfg) (pcfg : ParserConfig) (M
       intro y hy fI hF
       simp only [List.mem_singleton] at hy
       subst hy
-      exact objItem_N e Γ cfg pcfg M n IH hf hcl htk hty hm' hns' q hnsq hmem _ (by simpa using hx) fI
+      exact objItem_N ft e Γ cfg pcfg M n hΓ IH hf hcl htk hty hns' q hnsq hmem _ (by simpa using hx) fI
         (by rcases hF with h | h
             · omega
             · simp [Val.isArray] at h)
@@ -527,8 +683,9 @@ theorem cls_bundle (e : BEnv) (Γ : Ctx) (cfg : SerCfg) (pcfg : ParserConfig) (M
 
 /-- `None` only occurs among the items of a nillable var -/
 theorem items_nones {e : BEnv} {Γ : Ctx} {m : XmlMeta} {ci : ClassInfo} {var : XmlVar}
-    {rc : ClassId → Bool → Val → Bool} {x : Val} (hk : ElemKindN Γ m var)
-    (hx : FN.elemValOK e Γ m ci var rc x = true) :
+    {rc : ClassId → Bool → Option QN → Val → Bool} {x : Val} {ft : Feat} {inh : Bool}
+    (hk : ElemKindN ft Γ m var)
+    (hx : FN.elemValOK inh e Γ m ci var rc x = true) :
     ∀ y ∈ itemsN var x, y = .none → var.nillable = true := by
   intro y hy hnone
   subst hnone
